@@ -699,7 +699,8 @@ class C02(fw.Check):
         "format_keys_valid", "dict_layout", "dict_denote", "strict_lenient_agree",
         "foreign_key_strict", "foreign_key_lenient", "dict_roundtrip_partial", "write_denotes",
         "roundtrip_direct", "roundtrip_json", "roundtrip_yaml", "json_yaml_agree",
-        "prop_roundtrip", "card_roundtrip", "falsy_attributes_kept", "tuple_comma_counterexample",
+        "prop_roundtrip", "card_roundtrip", "falsy_attributes_kept", "dict_roundtrip_or_refused",
+        "refused_iff_not_repr", "tuple_comma_counterexample",
     ]]
 
     trusted_base = [
@@ -1056,10 +1057,10 @@ class C02(fw.Check):
 
     def finding_key(self, case, obs, failure):
         if case["stream"] in ("roundtrip", "scalar", "denote") and spec_has_tuple_comma(case["doc"]):
-            # strict readers refuse the whole document, lenient ones drop the Property and warn
-            if any(t in failure for t in ("Property not created", "raised parser", "differs",
-                                          "warnings on a saved document", "load to different documents",
-                                          "refused")):
+            # since fix 0846f56 the writer refuses such a document (ParserException) instead of
+            # writing a text that cannot be loaded; anything else on such a document is new
+            if "DictWriter.to_dict raised ParserException" in failure or \
+                    ("save/load raised ParserException" in failure and "contains a comma" in failure):
                 return "C02-tuple-item-comma"
         return None
 
